@@ -17,7 +17,8 @@
 (* Apply / ApplyAll give the mutated byte sequence; the driver performs    *)
 (* exactly this splice (and is checked against ApplyAll on small seeds).   *)
 (*                                                                         *)
-(* Operators: Truncate, SetLength, SetValue, SwapVR, DropDelimiter,        *)
+(* Operators: Truncate, SetLength, SetValue, SetCount, Shrink (coupled),    *)
+(* SwapVR, DropDelimiter,                                                  *)
 (* StrayDelimiter, ZeroField, FlipByte, Garbage, DuplicateField,           *)
 (* DropField, InsertBytes, InsertRun (over-long / deep nesting), SetChar,  *)
 (* InsertChar, Str (a whole string over the text alphabet).                *)
@@ -44,13 +45,15 @@ Apply(b, e) ==
       del == Min(e.del, Len(b) - at)
   IN SubSeq(b, 1, at) \o Rep(e.ins, e.rep) \o SubSeq(b, at + del + 1, Len(b))
 
-(* edits are relative to the seed: the one with the larger offset is applied
-   first so that the offsets of the other stay valid; ties: the first edit first *)
+(* edits are relative to the seed: the one with the largest offset is applied first so
+   that the offsets of the others stay valid; ties: the earlier edit of the list first *)
+RECURSIVE ApplyAll(_, _)
 ApplyAll(b, es) ==
   IF Len(es) = 0 THEN b
-  ELSE IF Len(es) = 1 THEN Apply(b, es[1])
-  ELSE IF es[1].at >= es[2].at THEN Apply(Apply(b, es[1]), es[2])
-  ELSE Apply(Apply(b, es[2]), es[1])
+  ELSE LET i == CHOOSE j \in 1..Len(es) : /\ \A k \in 1..Len(es) : es[j].at >= es[k].at
+                                          /\ \A k \in 1..(j - 1) : es[k].at < es[j].at
+           rest == [k \in 1..(Len(es) - 1) |-> IF k < i THEN es[k] ELSE es[k + 1]]
+       IN ApplyAll(Apply(b, es[i]), rest)
 
 NoGarbage(es) == \A i \in 1..Len(es) : es[i].rnd = 0
 
@@ -107,6 +110,14 @@ ValueBytes(f, c) ==
        [] c = "255" -> num(255)
        [] c = "ff7f" -> IF f.w = 1 THEN <<127>> ELSE IF f.be THEN <<127, 255>> ELSE <<255, 127>>
        [] c = "ffff" -> Rep(<<255>>, f.w)
+
+(* count fields with a maximum fixed by the format: boundary values around the limit *)
+Limit(f) == IF f.k = "rle_count" THEN 15                            \* PS3.5 G.5: at most 15 RLE segments
+            ELSE IF f.k = "byte" /\ f.n = "sof_ncomp" THEN 4        \* JPEG frame header: at most 4 components in a scan
+            ELSE -1
+CountClasses == {"lim-1", "lim", "lim+1", "lim+2"}
+CountBytes(f, c) ==
+  Enc(Limit(f) + (CASE c = "lim-1" -> 0 - 1 [] c = "lim" -> 0 [] c = "lim+1" -> 1 [] c = "lim+2" -> 2), f.w, f.be)
 
 (* VR codes for SwapVR (ASCII), incl. the long-header VRs, an unknown code and NULs *)
 VRCodes == {"SQ", "UN", "OB", "OW", "UT", "UC", "US", "UL", "LO", "DA", "TM", "DT", "AT", "FD", "PN", "IS", "DS", "ZZ", "nul"}
@@ -205,6 +216,41 @@ MRun(s)        == CASE s.kind \in {"file", "dataset"} -> {Mut("InsertRun", 0, n,
                     [] s.kind = "json" -> {Mut("InsertRun", 0, n, c) : n \in {100, 200, 5000}, c \in {"lbrack", "nest"}}
                     [] s.kind = "text" -> {Mut("InsertRun", 0, n, c) : n \in {300, 70000}, c \in {"9", "A", "[", "euro", "."}}
                     [] OTHER -> {}
+MSetCount(s)   == {Mut("SetCount", i, 0, c) : i \in {j \in FieldIdx(s) : Limit(s.fields[j]) >= 0}, c \in CountClasses}
+
+(* Shrink: a COUPLED mutation.  The structure (item, PDU item, PDU, element) that encloses a  *)
+(* count / inner length field is cut down to its fixed header (everything up to the first  *)
+(* value inside it after the field) plus p further bytes, the length fields of all enclosing *)
+(* structures are corrected so that the result is well-framed, and the field itself is set  *)
+(* to a class v ("keep": unchanged).  E.g. an RLE fragment of exactly 64 / 66 / 68 bytes      *)
+(* that declares 14..17 segments; a user identity sub-item cut after its primary length.    *)
+Encl(s, i) == LET f == s.fields[i] IN
+  {j \in FieldIdx(s) : s.fields[j].k \in Pseudo /\ s.fields[j].o <= f.o /\ f.o + f.w <= s.fields[j].o + s.fields[j].w}
+Inner(s, i) == CHOOSE j \in Encl(s, i) : \A j2 \in Encl(s, i) : s.fields[j].w <= s.fields[j2].w
+SetMin(S) == CHOOSE x \in S : \A y \in S : x <= y
+HeaderEnd(s, i) ==
+  LET f == s.fields[i]
+      p == s.fields[Inner(s, i)]
+      A == {s.fields[j].o : j \in {q \in FieldIdx(s) : /\ s.fields[q].o >= f.o + f.w
+                                                        /\ s.fields[q].o < p.o + p.w
+                                                        /\ s.fields[q].k \in {"value", "text"} \cup Pseudo}}
+  IN IF A = {} THEN p.o + p.w ELSE SetMin(A)
+(* the length field of a structure: the first length-like field inside it, if its value is
+   the number of bytes from its own end to the end of the structure *)
+LenFieldOf(s, j) ==
+  LET p == s.fields[j]
+      L == {q \in FieldIdx(s) : s.fields[q].k \in LenKinds /\ s.fields[q].o >= p.o /\ s.fields[q].o < p.o + p.w}
+  IN IF L = {} THEN 0
+     ELSE LET q == CHOOSE x \in L : \A y \in L : s.fields[x].o <= s.fields[y].o
+          IN IF s.fields[q].v = p.o + p.w - (s.fields[q].o + s.fields[q].w) THEN q ELSE 0
+ShrinkNotes == {"uid_len", "primary_len", "secondary_len", "pdu_subitem", "jpg", "frag"}
+ShrinkField(s, i) ==
+  LET f == s.fields[i]
+  IN /\ Limit(f) >= 0 \/ (f.k \in LenKinds /\ (f.k \in {"rle_off", "bot", "pdv_len"} \/ f.n \in ShrinkNotes))
+     /\ Encl(s, i) # {}
+ShrinkClasses(f) == IF Limit(f) >= 0 THEN CountClasses \cup {"keep"} ELSE {"keep", "zero", "inc", "ffff"}
+MShrink(s)     == {Mut("Shrink", i, p, c) : i \in {j \in FieldIdx(s) : ShrinkField(s, j)}, p \in {0, 2, 4}, c \in LenClasses32 \cup CountClasses \cup {"keep"}}
+
 MSetChar(s)    == IF IsText(s) THEN {Mut("SetChar", i, 0, c) : i \in FieldIdx(s), c \in Alphabet} ELSE {}
 MInsertChar(s) == IF IsText(s) THEN {Mut("InsertChar", 0, k, c) : k \in Boundaries(s), c \in Alphabet} ELSE {}
 (* every string of length <= 3 over the small alphabet (only on the empty text seed) *)
@@ -216,12 +262,17 @@ StrBytes(t) == IF t = <<>> THEN <<>> ELSE SymBytes(Head(t)) \o StrBytes(Tail(t))
 Applicable(s, m) ==
   CASE m.m = "SetLength" -> (LET f == s.fields[m.f] IN m.v \in ClassesOf(f) /\ ClassApplies(f, m.v))
     [] m.m = "FlipByte" -> m.p = 0 \/ s.fields[m.f].w > 1
+    [] m.m = "Shrink" -> (LET f == s.fields[m.f]
+                          IN /\ m.v \in ShrinkClasses(f)
+                             /\ (m.v \in {"zero", "inc", "ffff"} => ClassApplies(f, m.v))
+                             /\ HeaderEnd(s, m.f) + m.p < s.fields[Inner(s, m.f)].o + s.fields[Inner(s, m.f)].w)
     [] OTHER -> TRUE
 
 (* the full single-mutation space *)
 MutsFull(s) ==
   {m \in MTruncate(s) \cup MSetLength(s) \cup MSetValue(s) \cup MSwapVR(s) \cup MDropDelim(s) \cup MStray(s) \cup MZero(s)
          \cup MFlip(s) \cup MGarbage(s) \cup MDuplicate(s) \cup MDrop(s) \cup MInsert(s) \cup MRun(s) \cup MSetChar(s) \cup MInsertChar(s)
+         \cup MSetCount(s) \cup MShrink(s)
      : Applicable(s, m)}
 
 (* the structural core (used for pairs, and for the seeds of tier "core") *)
@@ -275,6 +326,7 @@ EditOf(s, m) ==
   IN CASE m.m = "Truncate"       -> Edit(m.p, s.n - m.p, <<>>, 1, 0)
        [] m.m = "SetLength"      -> Edit(f.o, f.w, ClassBytes(f, m.v), 1, 0)
        [] m.m = "SetValue"       -> Edit(f.o, f.w, ValueBytes(f, m.v), 1, 0)
+       [] m.m = "SetCount"       -> Edit(f.o, f.w, CountBytes(f, m.v), 1, 0)
        [] m.m = "SwapVR"         -> Edit(f.o, 2, VRBytes(m.v), 1, 0)
        [] m.m = "DropDelimiter"  -> Edit(f.o, f.w, <<>>, 1, 0)
        [] m.m = "StrayDelimiter" -> Edit(m.p, 0, DelimBytes(m.v, s.ts = "evrbe"), 1, 0)
@@ -296,9 +348,29 @@ EditOf(s, m) ==
        [] m.m = "SetChar"        -> Edit(f.o, f.w, SymBytes(m.v), 1, 0)
        [] m.m = "InsertChar"     -> Edit(m.p, 0, SymBytes(m.v), 1, 0)
 
+RECURSIVE SeqOfSet(_)
+SeqOfSet(S) == IF S = {} THEN <<>> ELSE LET x == CHOOSE y \in S : TRUE IN <<x>> \o SeqOfSet(S \ {x})
+
+(* the edits of the coupled mutation Shrink: the field, the cut, the enclosing length fields *)
+ShrinkEdits(s, m) ==
+  LET f     == s.fields[m.f]
+      p     == s.fields[Inner(s, m.f)]
+      cut   == HeaderEnd(s, m.f) + m.p
+      delta == p.o + p.w - cut
+      own   == IF m.v = "keep" THEN <<>>
+               ELSE IF m.v \in CountClasses THEN <<Edit(f.o, f.w, CountBytes(f, m.v), 1, 0)>>
+               ELSE <<Edit(f.o, f.w, ClassBytes(f, m.v), 1, 0)>>
+      LF    == {q \in {LenFieldOf(s, j) : j \in Encl(s, m.f)} : q # 0 /\ (q # m.f \/ m.v = "keep") /\ s.fields[q].v >= delta}
+      fix   == SeqOfSet({Edit(s.fields[q].o, s.fields[q].w, Enc(s.fields[q].v - delta, s.fields[q].w, s.fields[q].be), 1, 0) : q \in LF})
+  IN own \o <<Edit(cut, delta, <<>>, 1, 0)>> \o fix
+
+EditsOf(s, m) == IF m.m = "Shrink" THEN ShrinkEdits(s, m) ELSE <<EditOf(s, m)>>
+RECURSIVE Concat(_)
+Concat(ss) == IF ss = <<>> THEN <<>> ELSE Head(ss) \o Concat(Tail(ss))
+
 (* a case: seed name, mutation descriptors, edits; the materialised bytes when affordable *)
 CaseOf(s, ms) ==
-  LET es == [i \in 1..Len(ms) |-> EditOf(s, ms[i])]
+  LET es == Concat([i \in 1..Len(ms) |-> EditsOf(s, ms[i])])
       small == s.n <= 64 /\ NoGarbage(es) /\ \A i \in 1..Len(es) : es[i].rep * Len(es[i].ins) <= 64
   IN IF small
      THEN [seed |-> s.name, muts |-> ms, edits |-> es, bytes |-> ApplyAll(s.bytes, es)]
